@@ -35,7 +35,7 @@ def run(ctx):
     if b0ok != "b0_ok":
         ctx.violation({"what": "the built-in definitions of SchemaBuilder::new() no longer satisfy bi_b0_ok: the hypothesis of "
                                "C13_extension_commutes does not hold for the real initial state", "observed": b0ok}, no_input=True)
-    n = 600 if ctx.tier == "quick" else 15000
+    n = 400 if ctx.tier == "quick" else 15000
     raw = []
     for name, text in corpus_texts("C13"):
         # corpus file: chunks separated by a line `---`, optionally followed by `=== moved` and the moved text
@@ -93,7 +93,7 @@ def run(ctx):
     for (fl, cfg, ch, mv), (c, i, m) in list(zip(meta, rows))[:: max(1, len(rows) // 3)]:
         ctx.sample({"family": "c13_three", "flavour": fl, "cfg": cfg, "sources": ch, "moved": mv, "impl": i[:200]}, limit=4)
     # --- executable documents from several sources vs their concatenation (implementation-only oracle)
-    ne = 400 if ctx.tier == "quick" else 5000
+    ne = 250 if ctx.tier == "quick" else 5000
     elines = []
     for _ in range(ne):
         items = [ctx.rng.choice(EXEC_ITEMS) for _ in range(ctx.rng.randint(1, 6))]
